@@ -62,3 +62,62 @@ Qed.
 Definition two_active_witness : list gev := [ESub 1 5; ESub 1 5; EExit 0; ESub 2 1]%N.
 Theorem by_consumer_id_refuted : length (active (grun false two_active_witness)) = 2.
 Proof. vm_compute. reflexivity. Qed.
+
+(* ---- the replaced loop's clean-up racing the replacement (the schedule the tests never run) ---- *)
+
+(* the loop exit (or the close) of any subscription other than the one in the slot leaves the
+   slot and the active subscription alone *)
+Theorem exit_of_other_keeps_current st x i : slot_inv st -> slot st = Some x -> i <> sb_id x ->
+  let st' := fst (gstep true st (EExit i)) in
+  slot st' = Some x /\ active st' = active st /\
+  active (fst (gstep true st (EClose i))) = active st /\ slot (fst (gstep true st (EClose i))) = Some x.
+Proof.
+  intros Hinv Hs Hi. cbn [gstep fst slot active]. rewrite Hs.
+  assert (E : Nat.eqb (sb_id x) i = false) by (apply Nat.eqb_neq; congruence).
+  rewrite E.
+  assert (Ha : remove_id i (active st) = active st).
+  { destruct Hinv as [H|(y & Hy & H)]; rewrite H; [reflexivity|].
+    rewrite Hs in Hy. injection Hy as <-. rewrite remove_id_single, E. reflexivity. }
+  rewrite Ha. repeat split; reflexivity.
+Qed.
+
+(* an empty slot accepts any epoch and the newcomer is the only active subscription *)
+Theorem empty_slot_accepts st c e : slot_inv st -> slot st = None ->
+  let st' := fst (gstep true st (ESub c e)) in
+  snd (gstep true st (ESub c e)) = true /\ active st' = [nxt st] /\ slot st' = Some (mkSub (nxt st) c e).
+Proof.
+  intros Hinv Hs. cbn [gstep]. rewrite Hs. cbn [fst snd active slot].
+  destruct Hinv as [H|(y & Hy & _)]; [rewrite H; repeat split; reflexivity|congruence].
+Qed.
+
+(* while the slot stays occupied its group epoch never goes back, whatever the event and in
+   both variants of the clean-up *)
+Theorem slot_epoch_monotone ident st ev x y : slot st = Some x -> slot (fst (gstep ident st ev)) = Some y ->
+  (sb_ep x <= sb_ep y)%N.
+Proof.
+  intros Hx Hy. destruct ev as [c e|i|i]; cbn [gstep] in Hy; rewrite Hx in Hy.
+  - destruct (N.ltb_spec e (sb_ep x)) as [Hlt|Hge]; cbn [fst slot] in Hy.
+    + try rewrite Hx in Hy. injection Hy as <-. lia.
+    + injection Hy as <-. cbn [sb_ep]. exact Hge.
+  - cbn [fst slot] in Hy. injection Hy as <-. lia.
+  - cbn [fst slot] in Hy. destruct ident.
+    + destruct (Nat.eqb (sb_id x) i); [discriminate|]. injection Hy as <-. lia.
+    + destruct (cons_of st i) as [c|]; [destruct (N.eqb (sb_cons x) c); [discriminate|]|];
+        injection Hy as <-; lia.
+Qed.
+
+(* the slot always names the active subscription: whoever is active is the one
+   GetGroupConsumer reports *)
+Theorem active_is_slot evs i : In i (active (grun true evs)) ->
+  exists x, slot (grun true evs) = Some x /\ sb_id x = i.
+Proof.
+  intros Hin. destruct (grun_inv evs) as [H|(x & Hx & H)]; rewrite H in Hin.
+  - destruct Hin.
+  - destruct Hin as [<-|[]]. eauto.
+Qed.
+
+(* non-vacuity: c1/5 accepted, c2/7 replaces it, c1's loop returns late, c3/6 is refused *)
+Example race_example :
+  let st := grun true [ESub 1 5; ESub 2 7; EExit 0; ESub 3 6]%N in
+  active st = [1] /\ slot st = Some (mkSub 1 2%N 7%N).
+Proof. vm_compute. split; reflexivity. Qed.
